@@ -1318,6 +1318,7 @@ pub fn c12(cx: &mut Ctx) -> VResult {
         let fo = run_conn_with(icx, &plan, knobs, &copts(rf, wf), |w| w.force_propagate = true);
         // merge statistics
         cx.st.merge(&fo.world.cx.st);
+        cx.states.extend(fo.world.cx.states.iter().copied());
         cx.digest = fnv_u64(fo.world.cx.digest, cx.digest);
         cx.skeleton = fnv_u64(fo.world.cx.skeleton, cx.skeleton);
         if cx.trace { cx.events.extend(fo.world.cx.events.iter().map(|e| format!("    {e}"))); }
